@@ -79,8 +79,17 @@ TraceRDecode ==
    /\ Check(ev.field = "name" => ev.rawgot = ev.raw)
    /\ UNCHANGED <<cur, opened>>
 
+\* C03: prepended data of EVERY length (and, without ZIP64 end records, trailing bytes up to the search limit) changes nothing but
+\* the reported offset: one event per length of a dense range, compared with the archive as validated above
+TrailOk(L, t) == ~HasZ64(L) /\ L.eocd.clen + L.eocd.trailing + t <= Thr16
+TraceRSweep ==
+   /\ IsEvent("RSweep") /\ ev.r # "panic"
+   /\ Check(Good /\ ev.what = "prefix" => ev.r = "ok" /\ ev.offset = ev.offset0 + ev.p /\ ev.n = NEntries(cur) /\ ev.same)
+   /\ Check(Good /\ ev.what = "trailing" /\ TrailOk(cur, ev.p) => ev.r = "ok" /\ ev.offset = ev.offset0 /\ ev.n = NEntries(cur) /\ ev.same)
+   /\ UNCHANGED <<cur, opened>>
+
 TraceInit == l = 1 /\ cur = NoLayout /\ opened = FALSE /\ TLCSet(1, 0)
-TraceNext == TraceReset \/ TraceROpen \/ TraceREntry \/ TraceRName \/ TraceRAbsent \/ TraceRIndexOut \/ TraceRPw \/ TraceRDecode
+TraceNext == TraceReset \/ TraceROpen \/ TraceREntry \/ TraceRName \/ TraceRAbsent \/ TraceRIndexOut \/ TraceRPw \/ TraceRDecode \/ TraceRSweep
 TraceSpec == TraceInit /\ [][TraceNext]_tvars
 TraceAccepted ==
    LET d == TLCGet("stats").diameter IN
